@@ -35,6 +35,10 @@ def sdtParseOp (t : String) : Option Sdt.Op :=
   | "a32" => (u32? v).map .append32
   | "a64" => (u64? v).map .append64
   | "as" => (hexToBytes v).map .appendSlice
+  -- the generic `append<T>` / `write<T>` at other widths (arrays, u128, GenericAddress) act on the raw
+  -- bytes of the value: for the table they are the slice operations (C13.appendT_eq_appendSlice)
+  | "at" => (hexToBytes v).map .appendSlice
+  | "wt" => do let (o, x) ← sdtOffArg v; let x ← hexToBytes x; pure (.writeSlice o x)
   | "w8" => do let (o, x) ← sdtOffArg v; let x ← u8? x; pure (.write8 o x)
   | "w16" => do let (o, x) ← sdtOffArg v; let x ← u16? x; pure (.write16 o x)
   | "w32" => do let (o, x) ← sdtOffArg v; let x ← u32? x; pure (.write32 o x)
@@ -59,6 +63,8 @@ def sdtParseAct (t : String) : Option Spec.Sdt.Act :=
   | "a32" => (num 4 v).map .append
   | "a64" => (num 8 v).map .append
   | "as" => (hexToBytes v).map .append
+  | "at" => (hexToBytes v).map .append
+  | "wt" => do let (o, x) ← sdtOffArg v; let x ← hexToBytes x; pure (.write o x)
   | "w8" => do let (o, x) ← sdtOffArg v; let x ← num 1 x; pure (.write o x)
   | "w16" => do let (o, x) ← sdtOffArg v; let x ← num 2 x; pure (.write o x)
   | "w32" => do let (o, x) ← sdtOffArg v; let x ← num 4 x; pure (.write o x)
